@@ -6,6 +6,42 @@ HERE = os.path.dirname(os.path.dirname(os.path.abspath(__file__)))
 TRUST = "Trusted: go/types and go/ssa (x/tools v0.29.0) represent the program faithfully; documented pre/post-conditions of reflect, strings, strconv, regexp, sync, container/list. The check analyses /repo's current source on every run and executes nothing from it; unresolved anchors, unrecognised shapes and analyser panics fail the check."
 
 CLAIMED = {
+ "C06": dict(
+   technique="structural dataflow on SSA of the splice (span equality by canonical linear terms), regex language equivalence of the three patterns, loop-index linear form for application order, provenance of merge operands (static analysis)",
+   text="Decides the clause 'every byte outside the annotated fields' tag literals is unchanged' for all files: the splice keeps exactly contents[:A] and contents[B:] around the replaced copy of contents[A:B]; only the trailing literal can be replaced (pattern language compared exactly); areas are applied in descending offset order; the new literal is old.override(injected) rendered `k:v k:v`; nothing else touches the bytes between read and write and the same path is written. The key-wise merge loop and CLI plumbing are not decided (stated in DESIGN.md §6).",
+   ref="DESIGN.md §4 C06"),
+ "C07": dict(
+   technique="identity dataflow between read and write when the area list is empty + dominance of area construction by a non-empty @tag match (static analysis)",
+   text="Decides 'a file with no @tag annotations is left unchanged' for all files, plus necessary conditions of the re-run case (existing keys keep position and the injected value wins; the literal is replaced wholesale). The fixpoint law override(override(o,i),i)=override(o,i) is a data-dependent loop property and is NOT decided: a merge that appends instead of overriding is not detected here.",
+   ref="DESIGN.md §4 C07"),
+ "C08": dict(
+   technique="key-completeness dependency analysis on the abstract interpretation of the cache user (inputs of stored value ⊆ inputs of key), miss-path and who-stores rules, store inventory on cached memory (static analysis)",
+   text="Memoisation soundness for every history and every CacheEr implementation: the cached per-type info depends only on what its key contains (type and tag name), a miss returns the freshly computed value after a single Load, cached memory is never written, and the global is assigned only in init and under sync.Once. Purity of reflect.Type methods is trusted.",
+   ref="DESIGN.md §4 C08"),
+ "C09": dict(
+   technique="abstract interpretation of every cache method with container/list operations and the abstract list length n±k as observed domain; pairing/ends/capacity/callback rules per path (static analysis)",
+   text="Structural necessary conditions of a bounded LRU map on every path: list and map updated in pairs, insertion/touch/eviction ends consistent, Load and Store hits touch, Store hit replaces the value, exactly one eviction iff count after insertion exceeds capacity, callback exactly once with the removed pair, Len's sentinel only on mismatch. Trace equivalence with a reference LRU over all operation sequences is a history property and is NOT decided.",
+   ref="DESIGN.md §4 C09"),
+ "C11": dict(
+   technique="effects inventory over everything reachable from the entry points (global writes, global map updates), pool field discipline by abstract interpretation of constructors/releasers, lockset rule of C10 (static analysis)",
+   text="Decides absence of shared mutable state between concurrent validation calls for all schedules: no package-level state is written on a validation path, every pooled object is fully re-initialised or reset, builders are Reset before Put, and the only shared object (type cache) obeys the lock discipline. Races inside user callbacks and registration concurrent with validation are outside (property's assumption).",
+   ref="DESIGN.md §4 C11"),
+ "C12": dict(
+   technique="non-interference by effects: pool/global inventories, cache key completeness, slice-family aliasing analysis after zero-copy conversions, reflect-setter and rule-map write inventory (static analysis)",
+   text="Shows there is no channel through which an earlier call can influence a later one or a later call alter an earlier result: nothing survives in pooled objects or globals, the cache is transparent and immutable, zero-copy strings never share memory that is written afterwards, inputs and rule maps are never written. User-supplied functions are outside.",
+   ref="DESIGN.md §4 C12"),
+ "C14": dict(
+   technique="writer/reader constant-table agreement, linear-inequality normalisation of the message guard, delimiter-order dependency rule, fast-path dominance (static analysis)",
+   text="Necessary conditions of the round trip: builder and parser agree on '=' and '|', joiner and splitter default agree, the message guard is exactly 'at least one byte follows the bar' in both branches, the two delimiter positions are related, the fast path is guarded by 'no quote'. The splitter's quote-aware slow path (byte-level state machine) is NOT decided.",
+   ref="DESIGN.md §4 C14"),
+ "C19": dict(
+   technique="dominance/ordering rules on the handler's CFG, file-mutation call inventory over the call graph, loop-exit discipline, optional-pointer nil-guard rule, bounds prover with regex-inclusion fact (static analysis)",
+   text="No write after a failed parse or for a non-.go name, the only mutation reachable is the write of the read path after a successful read, directory/glob loops cannot be cut short by one file, nothing reachable exits or panics explicitly, optional go/ast pointers are nil-tested, all index/slice expressions of the injector are proved in bounds. Filesystem faults are outside.",
+   ref="DESIGN.md §4 C19"),
+ "C20": dict(
+   technique="abstract interpretation of the two mutually recursive emitters per reflect kind with container sizes 0..3 enumerated; emitted token sequences validated against the JSON shape per kind (static analysis)",
+   text="Decides well-formedness (balanced, exactly-one-comma separation, keys and strings quoted exactly once, null for nil pointers) of everything the dumper can emit for structs, slices/arrays, maps and scalars of every kind, for container sizes 0..3 with size-independent loop bodies, and the float bit size per kind. Textual equality of scalars with encoding/json and embedded-struct flattening are NOT decided.",
+   ref="DESIGN.md §4 C20"),
  "C04": dict(
    technique="abstract interpretation of the struct walker (kind-set typestate): descent table, label provenance, guard dominance; call-graph who-may-call (static analysis)",
    text="Decides the inductive step of nested validation for every kind: which kinds are descended into (once / per element / per map value / not at all), that each nested call is labelled with the very index or iterator key that produced the value, that descents happen only on non-zero, non-time.Time values through exported fields, that time.Time fields are excluded when the type is analysed, that nil sub-objects are skipped silently, and who may call the recursive walker. The recursion is the same function, so the step covers arbitrary depth and width.",
